@@ -64,7 +64,10 @@ BOUNDED_NOTE = " Bounded stand-ins (never counted as proved): the same clauses c
 
 claim("C01", "Chain of contracts: P3 on each compute_domains_X under contract; BC/shaving satisfy the ConsistencyAlg interface (BOUND only when every domain is a point, domains only shrink, lower levels untouched); "
       "solve_one returns exactly get_solution of a BOUND state (value = shared domain + offset) and, on a fresh solver, inside the root domains; reducers and workers pass solutions through unchanged. "
-      "The composition 'every enabled constraint holds at a BOUND state' (acceptance-predicate theorem) is checked by the bounded engine suite, not yet deductively.",
+      "Acceptance theorem (semantic layer: ghost assignment sigma, uninterpreted relation Rel(p, .) per posted constraint, propagator interface P3/P4), for problems whose constraints watch MIN and MAX of all their variables (full masks) "
+      "solved with the bound consistency algorithm: bound_consistency_algorithm#acc keeps K (an enabled constraint whose variables are all instantiated to sigma holds on sigma unless it is queued) and J (a disabled constraint holds on every point of the box) "
+      "and at its fixpoint every enabled instantiated constraint holds; solve_one#acc carries K/J per stack level through branching (C09 contract) and backtracking (C09.wake), so the assignment it returns satisfies every posted relation; "
+      "BacktrackSolver.solve#acc / solve_and_queue#acc assert it at the yield / queue.put, optimize#minacc/#maxacc for the returned optimum. Partial wake-up masks (per-propagator get_triggers adequacy), shaving and Problem.init stay with the bounded engine suite.",
       "contract-based deductive verification + bounded engine suite", level="other")
 claim("C02", "Loop contracts of solve_one / BacktrackSolver.solve: each search resumes from a well-formed stack, the branching contract (C09) partitions, the variable heuristics return an open decision domain or -1 only when none is left, "
       "exhaustion is reported only with an empty stack; stack levels stay pairwise separated on the recorded split domain; semantic layer (ghost solution sigma, uninterpreted relations): BC and shaving keep every solution of the box, "
@@ -73,7 +76,7 @@ claim("C02", "Loop contracts of solve_one / BacktrackSolver.solve: each search r
 claim("C03", "Loop contracts of BacktrackSolver.optimize / optimize_and_queue (both directions): after each improving solution the solver is reset to the root, the objective view bound is set just past the incumbent (through the offset), "
       "the incumbent stays inside the declared domain, the loop measure decreases; decrease_max / increase_min contracts; MultiprocessingSolver.optimize keeps the extremal message. "
       "Optimality is proved in the semantic layer (optimize#minsem/#maxsem over solve_one#sem): None is returned only if no assignment satisfying every posted relation lies in the root box, and a returned assignment is at least as good as every such assignment "
-      "(loop invariant: every solution strictly better than the incumbent is still in the root box). That the returned assignment itself satisfies the relations is C01 (bounded composition); the bounded engine suite cross-checks against brute force.",
+      "(loop invariant: every solution strictly better than the incumbent is still in the root box). That the returned assignment itself satisfies the relations is C01 (optimize#minacc/#maxacc); the bounded engine suite cross-checks against brute force.",
       "contract-based deductive verification + bounded engine suite", level="other")
 claim("C04", "decreases clauses discharged for: the propagation loop of bound_consistency_algorithm (lexicographic measure: total size of the current box, number of queued propagators — for ANY propagators satisfying the interface), "
       "the shaving loop (domains left to scan, bounds left to try, total size), the optimisation loop, the reducers; for-loops of all functions under contract are bounded by construction; unroll-mode exhaustion for the while loops of lexicographic_leq up to 5 pairs. "
